@@ -1973,7 +1973,92 @@ fn replay_case(cx: &mut Ctx, tag: &str, request: &str, script: &str) {
     cx.one(&c, &resp);
 }
 
+/// Scripts that build a *cyclic* `@base` chain (a test function receives the module's export map as
+/// `self` and can `export @base = self`). They may hang or overflow the native stack, so they run in
+/// a worker child with a wall-clock limit. Request: hex of the script; reply: outcome + output.
+fn worker_main() {
+    kvh::worker::serve(|line| {
+        let Some(bytes) = kvh::unhex(line) else { return "bad-request".into() };
+        let script = String::from_utf8_lossy(&bytes).to_string();
+        let cap = Capture::default();
+        let r = kvh::catch(|| {
+            let mut koto = make_koto(&cap);
+            koto.set_run_tests(true);
+            match koto.compile_and_run(CompileArgs::new(&script)) {
+                Ok(v) => format!("ok {}", canon(&v)),
+                Err(e) => format!("err {}", e.to_string().lines().next().unwrap_or("")),
+            }
+        });
+        format!("{} | {}", r.unwrap_or_else(|p| format!("panic {}", p)), trace_text(&cap.buf.borrow().lines().map(|l| l.to_string()).collect::<Vec<_>>()))
+    });
+}
+
+const CYCLIC_SCRIPTS: &[(&str, &str, &str)] = &[
+    // (name, script, expected reply once the runtime handles cycles: the checks terminate)
+    (
+        "cyclic-base-without-type",
+        "export @test cyc = ||\n  export @base = self\n  print repr(koto.type(self))\n  r = match self\n    _: Foo then 1\n    _ then 2\n  print repr(r)\n",
+        "",
+    ),
+    (
+        "cyclic-base-with-type",
+        "export @type = 'Bar'\nexport @test cyc = ||\n  export @base = self\n  print repr(koto.type(self))\n  r = match self\n    _: Foo then 1\n    _ then 2\n  print repr(r)\n",
+        "",
+    ),
+    // control: the same shape without the cycle terminates
+    (
+        "acyclic-control",
+        "export @type = 'Bar'\nexport @test cyc = ||\n  print repr(koto.type(self))\n  r = match self\n    _: Foo then 1\n    _ then 2\n  print repr(r)\n",
+        "ok null | sx426172 i2",
+    ),
+];
+
+fn cyclic_base_cases(cx: &mut Ctx) {
+    let mut w = kvh::worker::Worker::spawn(&["--worker".to_string()]);
+    let open: Vec<serde_json::Value> = cx.rep.known_open();
+    for (name, script, expected) in CYCLIC_SCRIPTS {
+        cx.rep.case(&format!("cyclic {}", name), true);
+        cx.rep.bump("kind=cyclic-base-chain(worker)");
+        let reply = w.request(&kvh::hex(script.as_bytes()), std::time::Duration::from_secs(4));
+        let (bad, what) = match &reply {
+            kvh::worker::Reply::Ok(s) => {
+                if !expected.is_empty() && s != expected {
+                    (true, format!("unexpected reply {:?}", s))
+                } else {
+                    (false, s.clone())
+                }
+            }
+            kvh::worker::Reply::Timeout => (true, "does not terminate (killed after 4 s)".to_string()),
+            kvh::worker::Reply::Died(st) => (true, format!("the process died ({})", st)),
+        };
+        if !bad {
+            continue;
+        }
+        // precise identification: the listed witness script, byte for byte
+        let listed = open.iter().find(|e| e["witness"].as_str() == Some(*script));
+        match listed {
+            Some(e) => {
+                let id = e["id"].as_str().unwrap_or("?").to_string();
+                cx.rep.known(&id, &format!("{}: {}", name, what));
+            }
+            None => {
+                cx.d_fail += 1;
+                cx.rep.violation(
+                    "D",
+                    "C16:type-check-terminates",
+                    json!({"name": name, "script": script, "observed": what,
+                           "note": "run with tests enabled (koto.set_run_tests(true)); type_as_string / compare_value_type on a cyclic @base chain"}),
+                );
+            }
+        }
+    }
+}
+
 fn main() {
+    if std::env::args().any(|a| a == "--worker") {
+        worker_main();
+        return;
+    }
     kvh::quiet_panics();
     let args = Args::parse();
     let mut rep = Report::new("C16", &args);
@@ -2038,6 +2123,9 @@ fn main() {
             }
         }
     }
+
+    // 0b. cyclic @base chains (worker child)
+    cyclic_base_cases(&mut cx);
 
     // 1. unit: type names and predicates
     let mut values = core_values();
